@@ -1161,6 +1161,8 @@ class TableDescription(ViewRepresentation):
     def __eq__(self, other):
         if not isinstance(other, TableDescription):
             return False
+        if self.column_names != other.column_names:
+            return False
         return self.key.__eq__(other.key)
 
     def __hash__(self):
